@@ -29,6 +29,8 @@ def variants(name, D):
         v.append(dict(diffuse_on_diffuse=True))
     if name == "GeneralVorticityConvectionStepper":
         v.append(dict(injection_scale=0.7, injection_mode=2))
+    if name in ("Burgers", "KuramotoSivashinsky", "NavierStokesVorticity", "NavierStokesVelocity") and D > 1:
+        v.append(dict(dealiasing_fraction=1.0))          # legal extreme: the cutoff N//2 - 1 still removes the Nyquist mode
     if name in KOLMOGOROV:
         v = [dict(injection_mode=2)]
     return v
